@@ -215,6 +215,36 @@ class Ctx:
             raise ToolFailure("Apalache: invariant %s of %s violated (defect of the specification)" % (inv, module))
         return ok
 
+    # ---- unbounded proof of laws of the specification (TLAPS) ---------------------------
+    def tlaps(self, module, timeout=900):
+        """tlapm on spec/tlaps/<module>.tla (copied to the work directory, where tlapm keeps its
+        cache).  Failed obligations are a defect of the specification / proof (tool failure); if
+        tlapm itself cannot run the stage is recorded as not run."""
+        d = os.path.join(self.work, "tlaps")
+        shutil.rmtree(d, ignore_errors=True)
+        os.makedirs(d)
+        shutil.copy(os.path.join(SPEC, "tlaps", module + ".tla"), d)
+        t0 = time.time()
+        try:
+            p = subprocess.run(["timeout", str(timeout), "tlapm", "--threads", "8", module + ".tla"],
+                               capture_output=True, text=True, cwd=d)
+            txt = p.stdout + p.stderr
+        except OSError as e:
+            txt = str(e)
+        shutil.rmtree(d, ignore_errors=True)
+        m = re.search(r"All (\d+) obligations proved", txt)
+        failed = re.search(r"(\d+)/(\d+) obligations failed", txt)
+        self.stages.append({"stage": "tlaps proof", "module": module,
+                            "obligations": int(m.group(1)) if m else (int(failed.group(2)) if failed else 0),
+                            "discharged": int(m.group(1)) if m else 0,
+                            "outcome": "proved" if m else ("failed" if failed else "not run"),
+                            "wall_s": round(time.time() - t0, 1)})
+        log("[%s] TLAPS %s: %s (%.1fs)" % (self.pid, module, ("all %s obligations proved" % m.group(1)) if m else
+                                          ("FAILED " + failed.group(0) if failed else "not run"), time.time() - t0))
+        if failed:
+            raise ToolFailure("TLAPS: %s in %s" % (failed.group(0), module))
+        return bool(m)
+
     # ---- spec -> implementation ------------------------------------------------------
     def emit_replay(self, module, cfg, name, timeout=1800, extra_env=None, **kw):
         """TLC enumerates the bounded instance and emits one case per CASE line (input +
